@@ -48,7 +48,7 @@ SLAB = 2500          # structures per observe/judge slab
 TIERS = {
     # NFULL: all spellings exhaustively; NFULL < n <= NPOL: polarity shapes with seeded spelling; MOD: stride of the largest
     # stratum; NOPT: structures with <= NOPT nodes get CfgSelect!FullOpts, larger ones LightOpts
-    "quick": {"NFULL": 3, "NPOL": 4, "DEPTH": 3, "MOD": 3, "NOPT": 2, "LAWN": 3, "LAWP": 4},
+    "quick": {"NFULL": 3, "NPOL": 4, "DEPTH": 3, "MOD": 6, "NOPT": 2, "LAWN": 3, "LAWP": 4},
     "thorough": {"NFULL": 4, "NPOL": 5, "DEPTH": 3, "MOD": 4, "NOPT": 3, "LAWN": 4, "LAWP": 5},
 }
 ENV0 = {"SEED": "0", "NFULL": "0", "NPOL": "0", "DEPTH": "0", "MOD": "1", "NOPT": "0",
@@ -205,6 +205,8 @@ def minimise(pool, failing, ran, work):
             extra += len(cases)
             ran.update(keys)
             for b in bad:
+                if "other" not in b["classes"]:
+                    continue          # explained by a described class: not a reason to drop the larger case
                 c = cases[b["id"] - 1]
                 it = Item(c, 0, obs[c["id"]][0], b)
                 new[it.key] = it
@@ -226,16 +228,16 @@ def confirm(pool, cores, work):
     return [{"case": cases[b["id"] - 1], "run": obs[b["id"]][0], "verdict": b} for b in bad]
 
 
-def violation_of(item):
+def violation_of(item, key=None, note=""):
     s = item["case"]
     o = s["opts"][0]
     payload = {"forest": s["forest"], "lines": s["lines"], "opt": o, "n": s["n"],
                "source": c12_run.render(s["lines"]), "args": c12_run.opt_args(o),
                "observed": item["run"], "verdict": item["verdict"]}
-    key = vlib.digest({"forest": s["forest"], "opt": o})
-    p = vlib.save_replay(PID, key, payload)
+    key = key or "core:" + vlib.digest({"forest": s["forest"], "opt": o})
+    p = vlib.save_replay(PID, key.replace(":", "-").replace("+", "-"), payload)
     v = item["verdict"]
-    what = "%s failed; args=%s; configurations=%s; uncovered lines=%s; reported=%s expected=%s; file:\n%s" % (
+    what = note + "%s failed; args=%s; configurations=%s; uncovered lines=%s; reported=%s expected=%s; file:\n%s" % (
         ",".join(v["failed"]), " ".join(payload["args"]) or "(none)",
         [(g["cfg"], g["st"]) for g in item["run"]["cfgs"]], v["uncovered"], item["run"]["reported"], v["expected"],
         "".join("      %2d  %s\n" % (i, ln.split("{")[0].strip() if ln.startswith("void") else ln)
@@ -256,7 +258,8 @@ def main(tier, seed, replay=None):
     stats = {"judged": 0, "cover_demanded": 0, "nontrivial": 0}
     by_n = {}
     failed_by_formula = {}
-    counts = {"batches": 0, "cfgs": 0, "skips": 0, "structs": 0, "cases": 0}
+    counts = {"batches": 0, "cfgs": 0, "skips": 0, "structs": 0, "cases": 0, "failed": 0}
+    classes = {}
     samples = []
 
     def absorb(slab, obs, res):
@@ -269,10 +272,21 @@ def main(tier, seed, replay=None):
                 ran.add(c12_run.case_key(c["forest"], o))
         for b in bad:
             c = by_id[b["id"]]
-            it = Item(c, b["k"] - 1, obs[c["id"]][b["k"] - 1], b)
-            failing[it.key] = it
             for f in b["failed"]:
                 failed_by_formula[f] = failed_by_formula.get(f, 0) + 1
+            counts["failed"] += 1
+            if "other" in b["classes"]:
+                it = Item(c, b["k"] - 1, obs[c["id"]][b["k"] - 1], b)
+                failing[it.key] = it
+                continue
+            # a Cover failure whose uncovered regions all belong to a described class: counted per class, smallest example kept
+            rank = (c["n"], len(c12_run.opt_args(c["opts"][b["k"] - 1])), len(c["lines"]), c["id"], b["k"])
+            for cl in b["classes"]:
+                e = classes.setdefault(cl, {"count": 0, "rank": None, "item": None})
+                e["count"] += 1
+                if e["rank"] is None or rank < e["rank"]:
+                    e["rank"] = rank
+                    e["item"] = Item(c, b["k"] - 1, obs[c["id"]][b["k"] - 1], b)
 
     with cf.ProcessPoolExecutor(max_workers=WORKERS) as pool, cf.ThreadPoolExecutor(max_workers=2) as bg:
         lawf = bg.submit(laws, tier, seed)
@@ -301,18 +315,28 @@ def main(tier, seed, replay=None):
         if counts["structs"] != nstruct or counts["cases"] != ncases or stats["judged"] != ncases:
             raise vlib.InfraError("C12: %d/%d structures, %d/%d cases run, %d judged" % (counts["structs"], nstruct, counts["cases"], ncases, stats["judged"]))
         t2 = time.time()
-        nfail = len(failing)
+        nfail = counts["failed"]
+        nother = len(failing)
         cores, rounds, extra = minimise(pool, failing, ran, work)
-        confirmed = confirm(pool, cores, work)
+        # every core and the smallest example of every class is run again alone before it is reported
+        class_names = sorted(classes)
+        confirmed_all = confirm(pool, cores + [classes[cl]["item"] for cl in class_names], work)
+        confirmed = [it for it in confirmed_all if it["case"]["id"] <= len(cores)]
+        confirmed_classes = {class_names[it["case"]["id"] - len(cores) - 1]: it for it in confirmed_all if it["case"]["id"] > len(cores)}
         t3 = time.time()
         nlaw, badlaw = lawf.result()
     if badlaw:
         raise vlib.InfraError("CfgSelect.tla: %d structures violate the laws of the specification itself" % badlaw)
-    violations = [violation_of(it) for it in sorted(confirmed, key=lambda it: (it["case"]["n"], len(c12_run.opt_args(it["case"]["opts"][0])),
-                                                                             json.dumps(it["case"]["forest"], sort_keys=True)))]
+    violations = []
+    for cl in class_names:
+        if cl in confirmed_classes and cl in confirmed_classes[cl]["verdict"]["classes"]:
+            violations.append(violation_of(confirmed_classes[cl], key="class:" + cl,
+                                           note="%d failing cases of this run are in class '%s'; smallest example: " % (classes[cl]["count"], cl)))
+    violations += [violation_of(it) for it in sorted(confirmed, key=lambda it: (it["case"]["n"], len(c12_run.opt_args(it["case"]["opts"][0])),
+                                                                              json.dumps(it["case"]["forest"], sort_keys=True)))]
     rc, new, known = vlib.verdict(PID, violations)
-    print("C12: %d structures, %d cases; %d failed the judge, reduced to %d cores (%d confirmed alone); %d new, %d known"
-          % (nstruct, ncases, nfail, len(cores), len(confirmed), new, known))
+    print("C12: %d structures, %d cases; %d failed the judge: %d in %d described classes, %d others reduced to %d cores (%d confirmed alone); %d new, %d known"
+          % (nstruct, ncases, nfail, nfail - nother, len(classes), nother, len(cores), len(confirmed), new, known))
     cov = {
         "evaluations": ncases + extra,
         "distinct_nontrivial": stats["nontrivial"],
@@ -324,7 +348,8 @@ def main(tier, seed, replay=None):
         "exhaustive": p["MOD"] == 1,
         "structures": nstruct, "structures_by_nodes": {str(k): v for k, v in sorted(by_n.items())},
         "cppcheck_processes": counts["batches"], "judged": stats["judged"], "cover_demanded": stats["cover_demanded"],
-        "failed_first_pass": nfail, "failed_by_formula": failed_by_formula,
+        "failed_first_pass": nfail, "failed_by_formula": failed_by_formula, "failed_by_class": {cl: classes[cl]["count"] for cl in class_names},
+        "failed_other": nother,
         "reduction_rounds": rounds, "reduction_extra_cases": extra, "cores": len(cores), "cores_confirmed_alone": len(confirmed),
         "known_findings_hit": known,
         "law_structures": nlaw,
@@ -336,8 +361,9 @@ def main(tier, seed, replay=None):
                         assumptions=["the hooks Config/ConfigChecked/HashSkip report the configurations the loop in CppCheck::checkInternal handles",
                                      "a division by zero `int z = 0; int r = N / z;` is reported in every configuration that compiles it",
                                      "macros of the family are not defined by the std library configuration (names M1..Mn)",
-                                     "a failing case is reported through its smallest failing reduction (core); larger failing cases that contain a "
-                                     "failing reduction are counted, not listed"])
+                                     "Cover failures whose uncovered regions all fall into a class described in CfgSelect.tla (RegionClass) are reported once per "
+                                     "class; any other failing case is reported through its smallest failing reduction (core), larger failing cases that "
+                                     "contain one are counted, not listed"])
     return rc
 
 
